@@ -51,3 +51,35 @@ package s2
 //@   loop 1: invariant [chain] rangeindex >= 0 ==> aiPrev == aClipped.edges[rangeindex] && vcSame(crosser.c, l.vertices[vcWrap(aiPrev+1, len(l.vertices))])
 //@   loop 1: invariant [first] rangeindex < 0 ==> aiPrev == -2
 //@   loop 1: invariant [parity] inside == (aClipped.containsCenter != vcClipParity(l, aClipped.edges, center, p, rangeindex+1))
+
+// ---------------------------------------------------------------- polygons and the dispatch between paths
+
+// the bound test used to reject early: only that it is a deterministic function of its arguments is needed here
+//@ func (r Rect) ContainsPoint(p Point) bool
+//@   assumed "lat-lng bound test, a deterministic function of the rectangle and the point (soundness of bounds: property C10)"
+//@   pure
+
+//@ func (q *ContainsPointQuery) Contains(p Point) bool
+//@   assumed "index path of polygon containment (its parity structure is the contract of shapeContains; not decided here)"
+//@   requires q != nil
+
+// containment in a polygon below the brute-force threshold: XOR over its loops of the loop's brute-force answer
+//@ spec func vcPolyParity(p *Polygon, pt Point, k int) bool = k > 0 && (vcPolyParity(p, pt, k-1) != (p.loops[k-1].originInside != vcLoopParity(p.loops[k-1], OriginPoint(), pt, len(p.loops[k-1].vertices))))
+//@   decreases k
+
+//@ func (p *Polygon) ContainsPoint(point Point) bool
+//@   absmod
+//@   requires p != nil && p.index != nil && (forall k int :: 0 <= k && k < len(p.loops) ==> p.loops[k] != nil && len(p.loops[k].vertices) >= 1)
+//@   requires p.numVertices < 32
+//@   ensures [bound-reject] !p.index.IsFresh() && !p.bound.ContainsPoint(point) ==> !result
+//@   ensures [small-polygon] p.index.IsFresh() || p.bound.ContainsPoint(point) ==> result == vcPolyParity(p, point, len(p.loops))
+//@   loop 1 (rangeindex int, inside bool): invariant [parity] -1 <= rangeindex && rangeindex < len(p.loops) && inside == vcPolyParity(p, point, rangeindex+1)
+
+// a loop answers from its bound or by brute force when it has no index yet or at most 32 vertices (the index path is
+// the contract of iteratorContainsPoint; the paths in between, Iterator/LocatePoint, belong to C13/C06)
+//@ func (l *Loop) ContainsPoint(p Point) bool
+//@   absmod
+//@   requires l != nil && l.index != nil && len(l.vertices) >= 1
+//@   requires len(l.index.shapes) == 0 || len(l.vertices) <= 32
+//@   ensures [bound-reject] !l.index.IsFresh() && !l.bound.ContainsPoint(p) ==> !result
+//@   ensures [brute-force] l.index.IsFresh() || l.bound.ContainsPoint(p) ==> result == (l.originInside != vcLoopParity(l, OriginPoint(), p, len(l.vertices)))
